@@ -261,6 +261,18 @@ fn sign_query_ext(r: &mut Req, ts: &str, region: &str, service: &str, s3: bool, 
 }
 static LAST_TOKEN: std::sync::Mutex<Option<Option<String>>> = std::sync::Mutex::new(None);
 static PROVIDER_CALLS: std::sync::atomic::AtomicUsize = std::sync::atomic::AtomicUsize::new(0);
+/// what the last successful validate_with() got back (method, header name/value pairs in iteration order)
+static LAST_RETURNED: std::sync::Mutex<Option<(String, Vec<(String, Vec<u8>)>)>> = std::sync::Mutex::new(None);
+/// log records at debug level or above captured during the last validate_with()
+static LOG_RECORDS: std::sync::Mutex<Vec<String>> = std::sync::Mutex::new(Vec::new());
+struct CaptureLogger;
+impl log::Log for CaptureLogger {
+    fn enabled(&self, m: &log::Metadata) -> bool { m.level() <= log::Level::Debug }
+    fn log(&self, r: &log::Record) { if self.enabled(r.metadata()) { LOG_RECORDS.lock().unwrap().push(format!("{}", r.args())); } }
+    fn flush(&self) {}
+}
+static LOGGER: CaptureLogger = CaptureLogger;
+fn install_logger() { let _ = log::set_logger(&LOGGER); log::set_max_level(log::LevelFilter::Debug); }
 async fn provider(req: GetSigningKeyRequest) -> Result<GetSigningKeyResponse, BoxError> {
     PROVIDER_CALLS.fetch_add(1, std::sync::atomic::Ordering::SeqCst);
     *LAST_TOKEN.lock().unwrap() = Some(req.session_token().map(|s| s.to_string()));
@@ -289,8 +301,11 @@ fn validate_with(r: &Req, now: DateTime<Utc>, region: &str, service: &str, optio
     }));
     match res {
         Err(_) => Err("PANIC".into()),
-        Ok(Ok((parts, body, _))) => Ok((parts.uri.to_string(), body.len())),
-        Ok(Err(e)) => Err(match e.downcast_ref::<scratchstack_aws_signature::SignatureError>() { Some(se) => format!("{}: {}", kind(se), se), None => format!("non-SignatureError: {}", e) }),
+        Ok(Ok((parts, body, _))) => {
+            *LAST_RETURNED.lock().unwrap() = Some((parts.method.to_string(), parts.headers.iter().map(|(k, v)| (k.as_str().to_string(), v.as_bytes().to_vec())).collect()));
+            Ok((parts.uri.to_string(), body.len()))
+        }
+        Ok(Err(e)) => Err(match e.downcast_ref::<scratchstack_aws_signature::SignatureError>() { Some(se) => format!("{}: {} [[debug: {:?}]]", kind(se), se, se), None => format!("non-SignatureError: {}", e) }),
     }
 }
 fn ts_now() -> (String, DateTime<Utc>) {
@@ -451,6 +466,24 @@ fn search_secret() -> (usize, Option<Value>) {
         match r {
             Err(_) => return (n, Some(json!({"fn": "KSecretKey::<M>::from_str", "M": m, "input": "", "real": "PANIC"}))),
             Ok(ok) => if ok != (m >= 4) { return (n, Some(json!({"fn": "KSecretKey::<M>::from_str", "M": m, "input": "", "real": ok, "spec": m >= 4}))); }
+        }
+    }
+    // secrets that themselves start with (parts of) the "AWS4" prefix: length rule and derivation must treat them like any other secret
+    for sec in ["AWS4", "AWS4x", "AWS", "AWS4AWS4", "aws4_request", "AWS4aaaaaaaaaaaaaaaaaaaaaaaaaaaaaaaaaaaaaaaaa", "AWS4aaaaaaaaaaaaaaaaaaaaaaaaaaaaaaaaaaaaa"] {
+        n += 1;
+        let r = std::panic::catch_unwind(|| KSecretKey::<44>::from_str(sec));
+        let expect_ok = sec.len() + 4 <= 44;
+        match r {
+            Err(_) => return (n, Some(json!({"fn": "KSecretKey::<44>::from_str", "input": sec, "real": "PANIC"}))),
+            Ok(Err(_)) => if expect_ok { return (n, Some(json!({"fn": "KSecretKey::<44>::from_str", "input": sec, "real": "Err", "spec": "Ok"}))); },
+            Ok(Ok(k)) => {
+                if !expect_ok { return (n, Some(json!({"fn": "KSecretKey::<44>::from_str", "input": sec, "real": "Ok", "spec": "Err(KeyTooLongError)"}))); }
+                let date = chrono::NaiveDate::from_ymd_opt(2015, 8, 30).unwrap();
+                let kd = hmac(format!("AWS4{}", sec).as_bytes(), b"20150830");
+                if k.to_kdate(date).as_ref() != kd.as_slice() {
+                    return (n, Some(json!({"fn": "KSecretKey::from_str / to_kdate", "input": sec, "real": "kDate differs from HMAC(\"AWS4\" + secret, date)"})));
+                }
+            }
         }
     }
     // key derivation against an independent HMAC chain, including years below 1000 (the date text is always eight digits)
@@ -904,6 +937,7 @@ fn model_verdict(r: &Req, c: &Cfg) -> Result<(Option<String>, usize), (&'static 
     let mut sts = format!("AWS4-HMAC-SHA256\n{}\n", compact).into_bytes(); sts.extend(scope); sts.push(b'\n'); sts.extend(sha_hex(&creq).as_bytes());
     let key = signing_key(&ymd, c.region, c.service);
     let expected = hex::encode(hmac(&key, &sts));
+    *MODEL_EXPECTED.lock().unwrap() = Some((expected.clone(), hex::encode(&key)));
     if sig != expected.as_bytes() { return Err(("SignatureDoesNotMatch", "C01")); }
     if folded {
         let mut u = String::from_utf8_lossy(&path).to_string();
@@ -912,6 +946,7 @@ fn model_verdict(r: &Req, c: &Cfg) -> Result<(Option<String>, usize), (&'static 
     } else { Ok((None, r.body.len())) }
 }
 
+static MODEL_EXPECTED: std::sync::Mutex<Option<(String, String)>> = std::sync::Mutex::new(None);
 static DIFF_HIST: std::sync::Mutex<Vec<(String, usize)>> = std::sync::Mutex::new(Vec::new());
 /// does the model reach the key provider (rules 1-13 pass), and with which session token?
 fn model_provider(r: &Req, c: &Cfg) -> (bool, Option<Vec<u8>>) {
@@ -938,9 +973,11 @@ fn search_differential(seed: u64, budget: usize, want: Option<&str>) -> (usize, 
     let paths = ["/", "/a/b", "/a%20b/c", "/x/./y/../z", "//p//q/", "/%7Euser/-_.", "/a%2fb", "/a/b/", "/..", "/a/%zz", "/%E4%B8%AD/%e4%b8%ad", "/a;b=c/d@e", "/./", "/a/../../b", "/%2E%2e/x", "/a%25b",
         "/x/%2E/y", "/x/%2e%2E/y", "/x/y/%2e%2e", "/a/.../b", "/a/..b/.c", "/a//b//", "/%41%42/%7e", "/a/%2F/b", "/a/b/..", "/a/b/.", "/a%", "/a%4", "/*'()!", "/a/%+1"];
     let queries = ["", "a=1", "b=2&a=1&a=0", "a=1&a-b=2", "q=x%20y&q=x+y", "k=v%3D%3D&e=", "%41=1&a=%61", "d=1&d=1", "m=YWJj==", "&&x&&", "x=%zz", "a=%e4%b8%ad&A=1", "z=1&y=2&Z=3", "a=b=c=d", "=v", "x-amz-signature=1",
-        "a.b=1&a=2&a-=3", "k=%2B&k=+&k=%20", "x=1&X-Amz-Signature=abc", "p=%7E&p=~", "e=&e", "a=1&&b=2&", "s=a%26b%3Dc", "u=%E2%82%AC"];
-    let extra: [&[(&str, &str)]; 8] = [&[], &[("X-Custom", "  a   b  ")], &[("x-dup", "1"), ("X-Dup", "2")], &[("Date", "Sun, 30 Aug 2015 12:36:00 GMT")], &[("X-Amz-Meta-Tab", "a\tb")],
-        &[("X-Amz-Target", "Svc.Op"), ("ETag", "\"abc\"")], &[("X-Amz-Security-Token", "tok/en+="), ("x-amz-security-token", "second")], &[("Content-Type", "text/plain")]];
+        "a.b=1&a=2&a-=3", "k=%2B&k=+&k=%20", "x=1&X-Amz-Signature=abc", "p=%7E&p=~", "e=&e", "a=1&&b=2&", "s=a%26b%3Dc", "u=%E2%82%AC",
+        "X-Amz-Security-Token=tok%2Fen%2B%3D&a=1", "a=1&X-Amz-Expires=3600", "X-Amz-Expires=60", "a=1;b=2", "k=v;x", "X-Amz-Content-Sha256=UNSIGNED-PAYLOAD"];
+    let extra: [&[(&str, &str)]; 12] = [&[], &[("X-Custom", "  a   b  ")], &[("x-dup", "1"), ("X-Dup", "2")], &[("Date", "Sun, 30 Aug 2015 12:36:00 GMT")], &[("X-Amz-Meta-Tab", "a\tb")],
+        &[("X-Amz-Target", "Svc.Op"), ("ETag", "\"abc\"")], &[("X-Amz-Security-Token", "tok/en+="), ("x-amz-security-token", "second")], &[("Content-Type", "text/plain")],
+        &[("x-foo", ""), ("x-foo", "a")], &[("x-bar", "a"), ("x-bar", ""), ("X-Bar", "b")], &[("Content-Length", "22")], &[("x-amz-content-sha256", "UNSIGNED-PAYLOAD")]];
     let dates = ["20150830T123600Z", "2015-08-30T12:36:00Z", "20150830T143600+0200", "2015-08-30T07:06:00.000-05:30", "20150830T123600,5Z", "20150830T123600", "2015-08-30 12:36:00Z", "20150830T123660Z", "20150230T123600Z", "20150830T122059Z", "20150830T125101Z", "20150830T125100Z", "20150830T122100Z",
         "20150830T125100.5Z", "20150830T122059.999999999Z", "20150830T125100.000000001Z", "20150830T122100.0Z", "20150831T003000+1200", "20150829T233600-1300", "2015-08-30T12:36:00+00:00", "20150830T123600-0000", "20150830T123600.Z", "20150830T123600+2400", "20150830t123600z", " 20150830T123600Z"];
     let bodies: [&[u8]; 12] = [b"", b"a=3&c=4", b"x=%7E&x=~", b"\xEF\xBB\xBFa=b", b"a=%zz", b"\xff\xfe", b"k=v&&k2", b"b=2\n", b" a=1", b"a=1 ", b"\r\nz=9\r\n", b"a=b=c&d"];
@@ -948,6 +985,7 @@ fn search_differential(seed: u64, budget: usize, want: Option<&str>) -> (usize, 
         "application/x-www-form-urlencoded ; boundary=x ; CHARSET=utf-8", "Application/X-WWW-Form-Urlencoded", "text/plain; charset=klingon", "application/x-www-form-urlencoded; charset"];
     let base_now = Utc.with_ymd_and_hms(2015, 8, 30, 12, 36, 0).unwrap();
     let mut n = 0usize;
+    install_logger();
     while n < budget {
         n += 1;
         let cfg = Cfg { region: ["us-east-1", "eu-west-1"][if pick(&mut x, 8) == 0 { 1 } else { 0 }], service: "service", now: base_now + chrono::Duration::milliseconds([0i64, 0, 0, 899_000, -899_000, 900_000, 901_000, -901_000, 5_000, 900_250, -900_250, 43_200_000, -43_200_000][pick(&mut x, 13)]),
@@ -962,14 +1000,14 @@ fn search_differential(seed: u64, budget: usize, want: Option<&str>) -> (usize, 
             let mut pth = String::from("/");
             for _ in 0..pick(&mut x, 8) { pth.push_str(ptoks[pick(&mut x, ptoks.len())]); }
             r.path = pth;
-            let qtoks = ["a", "b", "A", "=", "=", "&", "&", "%3D", "%26", "+", "%20", "%2B", "%", "%2", "%zz", "%41", "%61", "~", "%7E", "-", ".", "_", "X-Amz-Signature", "x", "1", "%C3%A9", "/", "?", ":", "@"];
+            let qtoks = ["a", "b", "A", "=", "=", "&", "&", ";", "%3D", "%26", "+", "%20", "%2B", "%", "%2", "%zz", "%41", "%61", "~", "%7E", "-", ".", "_", "X-Amz-Signature", "x", "1", "%C3%A9", "/", "?", ":", "@"];
             let mut q = String::new();
             for _ in 0..pick(&mut x, 10) { q.push_str(qtoks[pick(&mut x, qtoks.len())]); }
             r.query = q;
         }
         for (k, v) in extra[pick(&mut x, extra.len())] { r.headers.push((k.to_string(), v.to_string())); }
         if pick(&mut x, 4) == 0 {
-            let vtoks = [" ", "  ", "\t", "a", "b", ",", ";", "=", "\"", "é", "~"];
+            let vtoks = ["", " ", "  ", "\t", "a", "b", ",", ";", "=", "\"", "é", "~"];
             let mut v = String::new();
             for _ in 0..pick(&mut x, 7) { v.push_str(vtoks[pick(&mut x, vtoks.len())]); }
             r.headers.push((["X-Amz-Meta-Soup", "x-soup", "X-Custom"][pick(&mut x, 3)].to_string(), v));
@@ -1009,7 +1047,7 @@ fn search_differential(seed: u64, budget: usize, want: Option<&str>) -> (usize, 
         }
         // post-signing mutations (0-2)
         for _ in 0..pick(&mut x, 3) {
-            match pick(&mut x, 19) {
+            match pick(&mut x, 21) {
                 0 => { for h in r.headers.iter_mut() { if h.0 == "Authorization" { h.1.push('0'); } } }
                 1 => { r.headers.push(("X-Unsigned".into(), "v".into())); }
                 2 => { r.headers.push(("X-Amz-Meta-New".into(), "v".into())); }
@@ -1029,6 +1067,8 @@ fn search_differential(seed: u64, budget: usize, want: Option<&str>) -> (usize, 
                         for h in r.headers.iter_mut() { if h.0 == "Authorization" { h.1 = h.1.replacen("AWS4-HMAC-SHA256 ", v, 1); } } }
                 16 => { for h in r.headers.iter_mut() { if h.0 == "Authorization" { h.1 = h.1.replace("Credential=", ["credential=", "Credential =", "Credential==", ",Credential="][pick(&mut x, 4)]); } } }
                 17 => { for h in r.headers.iter_mut() { if h.0 == "Authorization" { h.1 = h.1.replace("SignedHeaders=", "SignedHeaders=zz;"); } } }
+                18 => { for h in r.headers.iter_mut() { if h.0 == "Authorization" { if let Some(p) = h.1.find("Signature=") { let (a, b) = h.1.split_at(p + 10); h.1 = format!("{}{}", a, b.to_uppercase()); } } } }
+                19 => { if let Some(p) = r.query.find("X-Amz-Signature=") { let (a, b) = r.query.split_at(p + 16); r.query = format!("{}{}", a, b.to_uppercase()); } }
                 _ => { r.method = if r.method == "GET" { "POST" } else { "GET" }; }
             }
         }
@@ -1041,6 +1081,9 @@ fn search_differential(seed: u64, budget: usize, want: Option<&str>) -> (usize, 
         if r.path.contains('+') { continue; } // D6 (open known finding): raw + in paths is outside the relativised contract
         PROVIDER_CALLS.store(0, std::sync::atomic::Ordering::SeqCst);
         *LAST_TOKEN.lock().unwrap() = None;
+        *LAST_RETURNED.lock().unwrap() = None;
+        *MODEL_EXPECTED.lock().unwrap() = None;
+        LOG_RECORDS.lock().unwrap().clear();
         let real = validate_with(&r, cfg.now, cfg.region, cfg.service, opt, &reqs);
         let real_calls = PROVIDER_CALLS.load(std::sync::atomic::Ordering::SeqCst);
         let real_token = LAST_TOKEN.lock().unwrap().clone();
@@ -1064,6 +1107,33 @@ fn search_differential(seed: u64, budget: usize, want: Option<&str>) -> (usize, 
             (Err(_), Err(k)) => vec!["C13", k.1],
             (Ok(_), Ok((muri, _))) => if muri.is_some() { vec!["C15", "C12"] } else { vec!["C15"] },
         };
+        // C15: an accepted request comes back with the method and the headers it was submitted with (names, values, multiplicity, per-name order)
+        if real.is_ok() && want.map(|w| w == "C15").unwrap_or(true) {
+            if let Some((m, hs)) = LAST_RETURNED.lock().unwrap().clone() {
+                let mut sent: Vec<(String, Vec<u8>)> = r.headers.iter().map(|(k, v)| (k.to_lowercase(), v.as_bytes().to_vec())).collect();
+                let mut got = hs.clone();
+                sent.sort_by(|a, b| a.0.cmp(&b.0)); got.sort_by(|a, b| a.0.cmp(&b.0)); // stable: per-name order is kept
+                if m != r.method || sent != got {
+                    return (n, Some(json!({"fn": "sigv4_validate_request", "case": "differential: the returned request differs from the submitted one", "seed": seed, "case_no": n, "speaks_about": ["C15"],
+                        "method": r.method, "path": r.path, "query": r.query, "headers": r.headers, "body_hex": hex::encode(&r.body), "returned_method": m,
+                        "returned_headers": got.iter().map(|h| format!("{}: {}", h.0, String::from_utf8_lossy(&h.1))).collect::<Vec<_>>() })));
+                }
+            }
+        }
+        // C17: neither the error handed to the caller nor a log record at debug level or above contains the signature the server computed
+        // for a refused request, its signing key or the secret
+        if want.map(|w| w == "C17").unwrap_or(true) {
+            if let (Err(e), Some((exp, keyhex))) = (&real, MODEL_EXPECTED.lock().unwrap().clone()) {
+                let presented_equal = r.headers.iter().any(|h| h.0 == "Authorization" && h.1.to_lowercase().contains(&exp)) || r.query.to_lowercase().contains(&exp);
+                let hay: Vec<String> = std::iter::once(e.to_lowercase()).chain(LOG_RECORDS.lock().unwrap().iter().map(|l| l.to_lowercase())).collect();
+                let leak = hay.iter().find_map(|h| if h.contains(&keyhex) { Some("signing key") } else if h.contains(&SECRET.to_lowercase()) { Some("secret key") }
+                    else if h.contains(&exp) && !(presented_equal && e.to_lowercase().contains(&exp) && false) { Some("server-computed signature") } else { None });
+                if let Some(what) = leak {
+                    return (n, Some(json!({"fn": "sigv4_validate_request", "case": format!("differential: {} of a refused request appears in the error or in a debug-level log record", what), "seed": seed, "case_no": n, "speaks_about": ["C17"],
+                        "method": r.method, "path": r.path, "query": r.query, "headers": r.headers, "real": e, "log_records": LOG_RECORDS.lock().unwrap().clone()})));
+                }
+            }
+        }
         // C14 / C19: the provider is asked exactly when rules 1-13 pass, once, with the carrier's first session token
         if !matches!(&real, Err(e) if e == "PANIC") {
             let (asked, tok) = model_provider(&r, &cfg);
@@ -1547,6 +1617,14 @@ impl tower::Service<GetSigningKeyRequest> for Scripted {
         Box::pin(async move {
             match answer {
                 "sigerr" => Err(Box::new(scratchstack_aws_signature::SignatureError::InvalidClientTokenId("no such key".into())) as BoxError),
+                "sig:ExpiredToken" => Err(Box::new(scratchstack_aws_signature::SignatureError::ExpiredToken("expired".into())) as BoxError),
+                "sig:SignatureDoesNotMatch" => Err(Box::new(scratchstack_aws_signature::SignatureError::SignatureDoesNotMatch(Some("from the provider".into()))) as BoxError),
+                "sig:MissingAuthenticationToken" => Err(Box::new(scratchstack_aws_signature::SignatureError::MissingAuthenticationToken("m".into())) as BoxError),
+                "sig:IncompleteSignature" => Err(Box::new(scratchstack_aws_signature::SignatureError::IncompleteSignature("i".into())) as BoxError),
+                "sig:InvalidBodyEncoding" => Err(Box::new(scratchstack_aws_signature::SignatureError::InvalidBodyEncoding("b".into())) as BoxError),
+                "sig:MalformedQueryString" => Err(Box::new(scratchstack_aws_signature::SignatureError::MalformedQueryString("q".into())) as BoxError),
+                "sig:InvalidURIPath" => Err(Box::new(scratchstack_aws_signature::SignatureError::InvalidURIPath("p".into())) as BoxError),
+                "sig:InternalServiceError" => Err(Box::new(scratchstack_aws_signature::SignatureError::InternalServiceError("inner".into())) as BoxError),
                 "foreign" => Err("database is down".into()),
                 _ => provider(req).await,
             }
@@ -1569,6 +1647,11 @@ fn search_provider() -> (usize, Option<Value>) {
         (vec!["err"], "ok", true, 0, "InternalServiceError"),
         (vec!["ok"], "sigerr", true, 1, "InvalidClientTokenId"),
         (vec!["ok"], "foreign", true, 1, "InternalServiceError"),
+        // every SignatureError kind a provider may answer with comes back unchanged
+        (vec!["ok"], "sig:ExpiredToken", true, 1, "ExpiredToken"), (vec!["ok"], "sig:SignatureDoesNotMatch", true, 1, "SignatureDoesNotMatch"),
+        (vec!["ok"], "sig:MissingAuthenticationToken", true, 1, "MissingAuthenticationToken"), (vec!["ok"], "sig:IncompleteSignature", true, 1, "IncompleteSignature"),
+        (vec!["ok"], "sig:InvalidBodyEncoding", true, 1, "InvalidBodyEncoding"), (vec!["ok"], "sig:MalformedQueryString", true, 1, "MalformedQueryString"),
+        (vec!["ok"], "sig:InvalidURIPath", true, 1, "InvalidURIPath"), (vec!["ok"], "sig:InternalServiceError", true, 1, "InternalServiceError"),
         (vec!["ok"], "ok", false, 0, "SignatureDoesNotMatch"),
     ];
     for (script, answer, in_scope, exp_calls, exp) in cases {
@@ -1726,7 +1809,7 @@ fn searches_for(pid: &str, strict_d6: bool) -> Vec<(&'static str, (usize, Option
     if all || pid == "C11" || pid == "C19" {
         v.push(("carriers", search_carriers()));
     }
-    if ["C01", "C02", "C03", "C04", "C05", "C09", "C10", "C11", "C12", "C13", "C14", "C15", "C16", "C19"].contains(&pid) {
+    if ["C01", "C02", "C03", "C04", "C05", "C09", "C10", "C11", "C12", "C13", "C14", "C15", "C16", "C17", "C19"].contains(&pid) {
         let seed: u64 = std::env::var("VERIF_SEED").ok().and_then(|s| s.parse().ok()).unwrap_or(0);
         let budget: usize = std::env::var("VERIF_DIFF_BUDGET").ok().and_then(|s| s.parse().ok()).unwrap_or(100_000);
         v.push(("differential", search_differential(seed, budget, Some(if pid == "C11" { "C01" } else { pid }))));
